@@ -172,6 +172,30 @@ class Exec:
             before = model_state(m)
             state = {f"x{j + 1}": float(op["state"][j]) for j in range(n)} if op.get("state") else None
             xs = [float(op["state"][j]) for j in range(n)] if op.get("state") else x0_of(spec)
+            if op.get("interrupt_at") is not None:
+                # the user interrupts the routine half-way (Ctrl-C while a flux evaluation runs):
+                # the model it was handed must still be as it was found
+                from simkit import fnlib
+
+                ts = op.get("to_scan")
+                if ts and spec.get("derived_k1"):
+                    ts = ["kcat" if c == "k1" else c for c in ts]
+                fired = False
+                try:
+                    with fnlib.Tripper(m, int(op["interrupt_at"]), methods=("get_fluxes",)):
+                        if kind == "variable_elasticities":
+                            mca.variable_elasticities(m, variables=state, normalized=normalized, to_scan=op.get("to_scan"))
+                        else:
+                            mca.parameter_elasticities(m, variables=state, normalized=normalized, to_scan=ts)
+                except fnlib.SimInterrupt:
+                    fired = True
+                except Exception as e:  # noqa: BLE001
+                    self.trace.add(kind, "interrupt_exc", type(e).__name__)
+                self.trace.add(kind, "interrupted" if fired else "interrupt_not_reached")
+                if fired:
+                    self.counters["fault_fired:routine_interrupted"] += 1
+                    self.untouched(m, before, kind, "mode:direct", "after_interrupt")
+                return
             try:
                 if kind == "variable_elasticities":
                     tab = mca.variable_elasticities(m, variables=state, normalized=normalized, to_scan=op.get("to_scan"))
@@ -427,6 +451,8 @@ def gen_case(rng: SimRng, tier: str) -> dict:  # noqa: ARG001
                 op["state"] = [r.choice([0.5, 1.5, 2.0, 4.0]) for _ in range(n)]
             if kind == "parameter_elasticities" and r.random() < 0.5:
                 op["to_scan"] = r.sample([f"k{j}" for j in range(n + 1)], r.randint(1, n + 1))
+            if r.random() < 0.2:
+                op["interrupt_at"] = r.choice([0, 1, 2, 3, 4, 5, 7, 9])
         else:
             if r.random() < 0.5:
                 op["variables"] = [r.choice([0.25, 1.5, 5.0]) for _ in range(n)]
